@@ -968,22 +968,44 @@ def e2e_send(ec):
     cr = im.AES(ec["akey"], ec["n"], ec["m"])
     dist, _ = S.make_stepped(devices=devs, me=0, crypto=cr, decider=dec, flag_reset=bool(c["flags"] & 1))
     clock = S.FakeClock(start=float(E2E_ACCEPTED))
-    net = S.FakeNet(clock=clock)
+    down = [False]
+    net = S.FakeNet(clock=clock, on_connect=lambda sock, addr: ConnectionRefusedError("link down") if down[0] else None)
     d = dist._devices[E2E_RCV_URN]
     rec = []
+    outage = int(ec.get("outage") or 0) if c["type"] == 0 and any(objs) else 0
     with S.installed(net, clock), P17.scripted_rng(list(ec["draw"])), P17.patched_new(P17.toy_new(rec)):
         dist.mark_running()
         if c["type"] == 0:
             d.last_comms = E2E_ACCEPTED              # SYNC period: the queued update is sent
-            dist.on_decider_update(objs[0], objs[1], objs[2], True)
+            try:
+                if outage:
+                    # an earlier change got through (the peer's backlog has been used and emptied once); then the link
+                    # to the peer goes down (the peer's own messages still arrive: it stays in the SYNC period)
+                    dist.on_decider_update([], [], [S.make_run_serial(77)], True)
+                    dist.outgoing_iterations(1)
+                    down[0] = True
+                    dist.on_decider_update(objs[0], objs[1], objs[2], True)
+                    for _ in range(outage):          # the lists go to the backlog; retried, still down
+                        dist.outgoing_iterations(1)
+                        clock.advance(60)
+                        d.last_comms = int(clock.time())
+                    down[0] = False
+                    d.flag_reset = bool(c["flags"] & 1)
+                else:
+                    dist.on_decider_update(objs[0], objs[1], objs[2], True)
+            except ValueError as e:
+                return None, objs, "encrypt raised %s" % type(e).__name__
         else:
             d.last_comms = 0                         # RESYNC period: the decider's snapshot is sent
         try:
             dist.outgoing_iterations(1)
         except ValueError as e:                      # AES.new rejected the configuration
             return None, objs, "encrypt raised %s" % type(e).__name__
-    if len(net.sent) != 1:
-        raise RuntimeError("sender issued %d sendall calls" % len(net.sent))
+    if len(net.sent) != (2 if outage else 1):
+        raise RuntimeError("sender issued %d sendall calls%s" % (len(net.sent), " (one before and one after an outage of %d "
+                           "failed attempts expected)" % outage if outage else ""))
+    if outage:
+        return net.sent[-1][1], objs, None
     if not rec:
         raise RuntimeError("encrypt did not go through Crypto.Cipher.AES.new")
     return net.sent[0][1], objs, None
@@ -1280,6 +1302,9 @@ def e2e(ctx, res):
         base = dict(akey=akey, n=n, m=m, trecv=trecv, nrecv=nrecv, fuel=8, qmax=rng.choice([0, 0, 0, 4]),
                     pre=rng.choice([0, 1, 2]), addr=rng.choice(addrs), draw=[rng.randrange(256) for _ in range(max(n, 0))],
                     msg={k: c[k] for k in ("urn", "key", "type", "flags", "completed", "halted", "updated")})
+        if c["type"] == 0 and any(c[k] for k in ("completed", "halted", "updated")) and len(coq_cases) % 3 == 1:
+            base["outage"] = 1 + len(coq_cases) % 2      # the lists wait in the peer's backlog through an outage first
+            res.count("e2e_sent_from_backlog_after_outage")
         try:
             data, objs, note = e2e_send(base)
         except Exception as e:
@@ -1386,6 +1411,9 @@ def e2e_replay(case):
     print("link    : key=%r nonce=%d mac=%d recv_bytes=%d timeout_receive=%d addr=%r pre-state %d"
           % (ec["akey"], ec["n"], ec["m"], ec["nrecv"], ec["trecv"], ec["addr"], ec["pre"]))
     print("cut     : spec=%r clock=%r" % (ec["spec"], ec["clock"]))
+    if ec.get("outage"):
+        print("sender  : an earlier change was delivered; link down, the lists wait in the backlog over %d failed attempts; "
+              "link up, this is the message then sent" % ec["outage"])
     if data is None:
         vec, fail = [0], None
         print("impl    : %s" % note)
